@@ -29,21 +29,34 @@ type sfxView struct {
 func (v sfxView) GetRegionSuffix() string { return v.sfx }
 
 type c01SfxWorld struct {
-	w    *World
-	fs   []*ae.SessionFactory
-	ss   []*ae.Session
-	recs []*ae.DataRowRecord
-	pays [][]byte
-	by   []int
+	w        *World
+	fs       []*ae.SessionFactory
+	ss       []*ae.Session
+	recs     []*ae.DataRowRecord
+	pays     [][]byte
+	by       []int
+	realKind string
 }
 
 var c01SfxRegions = []string{"us-west-2", "us-east-1", "us-west-2"}
 
-func newC01SfxWorld(spec PolicySpec) *c01SfxWorld {
+func newC01SfxWorld(spec PolicySpec) *c01SfxWorld { return newC01World(spec, "") }
+
+// newC01World: realKind == "" gives three views with different region suffixes on the spy table; otherwise the three
+// factories share one real metastore object of that kind (DynamoDB plugins on the eventually consistent fake, memory).
+func newC01World(spec PolicySpec, realKind string) *c01SfxWorld {
 	resetGlobals()
-	sw := &c01SfxWorld{w: NewWorld()}
+	sw := &c01SfxWorld{w: NewWorld(), realKind: realKind}
+	var real ae.Metastore
+	if realKind != "" {
+		real, _ = c14RealStore(realKind)
+	}
 	for _, sfx := range c01SfxRegions {
-		f := ae.NewSessionFactory(&ae.Config{Service: "s", Product: "p", Policy: spec.Build()}, sfxView{sw.w.MS, sfx}, sw.w.KMS, sw.w.AEAD, ae.WithSecretFactory(sw.w.TF))
+		var store ae.Metastore = sfxView{sw.w.MS, sfx}
+		if real != nil {
+			store = real
+		}
+		f := ae.NewSessionFactory(&ae.Config{Service: "s", Product: "p", Policy: spec.Build()}, store, sw.w.KMS, sw.w.AEAD, ae.WithSecretFactory(sw.w.TF))
 		s, err := f.GetSession("A")
 		if err != nil {
 			panic(err)
@@ -72,12 +85,18 @@ func (sw *c01SfxWorld) apply(op string) (string, string) {
 			return "suffix-encrypt-failed", fmt.Sprintf("encrypt by the factory of region %s failed: %v", c01SfxRegions[a], err)
 		}
 		want := ref.IntermediateKeyID("A", "s", "p", c01SfxRegions[a])
+		if sw.realKind != "" {
+			want = ref.IntermediateKeyID("A", "s", "p", "")
+		}
 		if rec.Key.ParentKeyMeta.ID != want {
 			return "suffix-wrong-key-id", fmt.Sprintf("the factory of region %s wrote under key id %s, want %s", c01SfxRegions[a], rec.Key.ParentKeyMeta.ID, want)
 		}
 		sw.recs = append(sw.recs, rec)
 		sw.pays = append(sw.pays, pl)
 		sw.by = append(sw.by, a)
+		if sw.realKind != "" {
+			break
+		}
 		if out, err := ref.Decrypt(tableOf(sw.w.MS), sw.w.KMS.Unwrap, toRefRow(rec)); err != nil || !bytes.Equal(out, pl) {
 			return "suffix-reference-decrypt", fmt.Sprintf("the record of region %s cannot be decrypted from the table by the reference: %v", c01SfxRegions[a], err)
 		}
@@ -164,9 +183,79 @@ func c01Suffix(r *Report) {
 		r.TracesValidated += seqs
 	}
 	r.Notes = append(r.Notes, "region-suffixed key ids: factories behind different region suffixes on one key table decrypt each other's records (every sequence up to the depth bound)")
+	c01RealStores(r)
+}
+
+// c01RealStores: the same sequences over three factories that share one REAL metastore object (the DynamoDB plugins on a
+// fake whose reads are eventually consistent unless the request asks for a consistent one; memory): a factory that has
+// nothing cached decrypts a record the moment another one has produced it.
+func c01RealStores(r *Report) {
+	depth := 3
+	kinds := []string{"dynamodb-v1", "dynamodb-v2"}
+	if r.Thorough() {
+		depth = 4
+		kinds = append(kinds, "dynamodb-deprecated", "memory")
+	}
+	for _, kind := range kinds {
+		t0 := time.Now()
+		seqs := 0
+		seen := map[string]bool{}
+		var rec func(hist []string, nrecs int)
+		rec = func(hist []string, nrecs int) {
+			if len(hist) > 0 {
+				seqs++
+				sw := newC01World(SpecDefault, kind)
+				for _, op := range hist {
+					if sig, msg := sw.apply(op); sig != "" {
+						sig = strings.Replace(sig, "suffix-", "real-store-", 1)
+						if !seen[sig] {
+							seen[sig] = true
+							r.Viols = append(r.Viols, Viol{Property: "C01", Harness: "C01/real-store", Sig: sig + "@" + kind, Msg: strings.Replace(msg, "of region us-", "behind "+kind+" #", -1) + fmt.Sprintf(" [sequence %v]", hist), Ops: append([]string{kind}, hist...)})
+						}
+						sw.close()
+						return
+					}
+				}
+				sw.close()
+			}
+			if len(hist) == depth {
+				return
+			}
+			ops := []string{"enc0", "enc1", "tick"}
+			for f := 0; f < 3; f++ {
+				for k := 0; k < nrecs; k++ {
+					ops = append(ops, fmt.Sprintf("dec%d:%d", f, k))
+				}
+			}
+			for _, op := range ops {
+				n := nrecs
+				if strings.HasPrefix(op, "enc") {
+					n++
+				}
+				rec(append(append([]string{}, hist...), op), n)
+			}
+		}
+		rec(nil, 0)
+		r.Runs = append(r.Runs, RunInfo{Name: "C01/real-store-" + kind, Executions: seqs, States: seqs, Transitions: int64(seqs), Exhaustive: true,
+			Bound: fmt.Sprintf("all operation sequences of length <= %d over 3 factories on one %s metastore object", depth, kind), WallS: time.Since(t0).Seconds()})
+		r.Evaluations += seqs
+		r.Transitions += int64(seqs)
+		r.TracesValidated += seqs
+	}
 }
 
 // c01SuffixReplay re-executes one sequence.
+func c01RealStoreReplay(ops []string) []string {
+	sw := newC01World(SpecDefault, ops[0])
+	defer sw.close()
+	for _, op := range ops[1:] {
+		if sig, msg := sw.apply(op); sig != "" {
+			return []string{sig + ": " + msg}
+		}
+	}
+	return nil
+}
+
 func c01SuffixReplay(ops []string) []string {
 	var spec PolicySpec
 	switch ops[0] {
